@@ -41,6 +41,7 @@ type Scenario struct {
 	Parallel   int        `json:"parallel,omitempty"`    // >0: that many signer/verifier pairs work concurrently, each with its own key (Deliveries are ignored)
 	Leftovers  bool       `json:"leftovers,omitempty"`   // the SIG record handed to Sign is a recycled one: every field Sign is documented to fill in itself still holds something
 	Resign     bool       `json:"resign,omitempty"`      // the signer uses its SIG record a second time (a template kept between messages); the second output is what travels
+	Poison     bool       `json:"poison,omitempty"`      // between packing the message and signing it, some other compressed message fails to pack half way (a name that is not fully qualified)
 	NearLimit  int        `json:"near_limit,omitempty"`  // > 0: the padding is adjusted until message + SIG record is this many octets short of 65535 (1 = fits exactly)
 	ThirdParty int        `json:"third_party,omitempty"` // the message that travels is signed by an independent implementation (own digest construction, standard library crypto): 1 ECDSA with the smaller s, 2 with the larger s, 3 as it comes
 	Msg        gen.Recipe `json:"msg"`
@@ -98,6 +99,7 @@ func Gen(seed uint64, tier string) any {
 		sc.NearLimit = core.Pick(r, 1, 2, 50, 130, 384, 385, 450)
 		sc.Msg.Pad, sc.Msg.Compress = 60000, core.Chance(r, 30)
 	}
+	sc.Poison = core.Chance(r, 20)
 	sc.Resign = core.Chance(r, 25)
 	if core.Chance(r, 30) {
 		sc.ThirdParty = 1 + r.IntN(3)
@@ -364,6 +366,21 @@ func runIn(sc *Scenario, res *core.Result, verbose bool) {
 		res.Bump("fault.sig_record_with_leftovers")
 	}
 	arBefore := int(binary.BigEndian.Uint16(packed[10:]))
+	if sc.Poison {
+		// an unrelated message that shares names with this one and cannot be packed: whatever packing
+		// state it leaves behind must not reach the message that is signed next
+		bad := new(dns.Msg)
+		bad.SetQuestion("host.example.org.", dns.TypeMX)
+		bad.Compress = true
+		for _, q := range m.Question {
+			bad.Question = append(bad.Question, q)
+		}
+		bad.Answer = append(bad.Answer, &dns.MX{Hdr: dns.RR_Header{Name: "host.example.org.", Rrtype: dns.TypeMX, Class: dns.ClassINET, Ttl: 60}, Preference: 10, Mx: "mail.example.org."},
+			&dns.MX{Hdr: dns.RR_Header{Name: "www.example.org.", Rrtype: dns.TypeMX, Class: dns.ClassINET, Ttl: 60}, Preference: 20, Mx: "not-fully-qualified"})
+		if _, perr := bad.Pack(); perr != nil {
+			res.Bump("fault.failed_pack_before_sign")
+		}
+	}
 
 	// --- Q1: signing succeeds, output = packed message || one SIG, ARCOUNT+1
 	signed, err := sig.Sign(kp.priv, m)
